@@ -334,3 +334,100 @@ Proof. exact null_triangle_drops_diagonal_jet_refuted. Qed.
 (* the hypotheses are satisfiable: binary64 has 0.0 == 0.0, and the invariant holds at the start *)
 Example round3_hypotheses_satisfiable : feq FlP (C01.Model.zero FlP) (C01.Model.zero FlP) = true /\ iwf iinit.
 Proof. split; [vm_compute; reflexivity | exact iwf_init]. Qed.
+
+(* ====================================================================================================
+   Round 5.  (A) As-CONVERSIONS between representations, at the granularity of scalar cells (ModelConv.v);
+             (B) CLONES OF ITERATORS, plain and joint (ModelIt.v).
+   ==================================================================================================== *)
+From ADV Require Import C12.ModelConv C12.ProofsConv C12.ModelIt C12.ProofsIt.
+Section Round5A.
+Context {V : Type} (vzero : V) (vnull : V -> bool).
+(* "null" reads like an absent entry: exact carriers (on binary64 a dropped stored -0.0 reads 0.0; the executed tie
+   compares up to the sign of zero) *)
+Hypothesis null_reads_zero : forall x, vnull x = true -> x = vzero.
+
+(* every As-conversion (same concrete type = Clone; to dense; to sparse through the source's iterator): every cell of
+   the result is NEW — in particular none is a cell of the source —, no existing cell is written *)
+Theorem conversion_allocates_only_new_cells : forall kind same iter (h h' : ModelConv.heap) src src' r,
+  ModelConv.conv vzero vnull kind same iter h src = (h', src', r) ->
+  (forall l, In l (ModelConv.locs r) -> h_next h <= l < h_next h') /\
+  (forall l, l < h_next h -> h_val h' l = h_val h l) /\ h_next h <= h_next h' /\ NoDup (ModelConv.locs r).
+Proof. exact (ProofsConv.conv_fresh vzero vnull). Qed.
+(* the result reads like the source at every position *)
+Theorem conversion_result_observes_like_source : forall kind same iter (h h' : ModelConv.heap) src src' r,
+  NoDup (ModelConv.stored src) -> ModelConv.conv vzero vnull kind same iter h src = (h', src', r) ->
+  ModelConv.obs vzero h' r = ModelConv.obs vzero h src.
+Proof. exact (ProofsConv.conv_obs_list vzero vnull null_reads_zero). Qed.
+(* the source keeps its observation; its own iterator may have dropped stored nulls (representation only) *)
+Theorem conversion_leaves_source_observation : forall kind same iter (h h' : ModelConv.heap) src src' r,
+  NoDup (ModelConv.stored src) -> ModelConv.conv vzero vnull kind same iter h src = (h', src', r) ->
+  (forall l, In l (ModelConv.locs src') -> In l (ModelConv.locs src)) /\ NoDup (ModelConv.stored src') /\
+  c_dim src' = c_dim src /\ forall p, ModelConv.rd vzero h src' p = ModelConv.rd vzero h src p.
+Proof. exact (ProofsConv.conv_source vzero vnull null_reads_zero). Qed.
+(* in a world of containers with pairwise disjoint cell sets: the conversion appends a container that reads like the
+   source, the source reads as before, the two cell sets are disjoint, and the world stays well formed *)
+Theorem conversion_is_a_deep_copy : forall h cs kind same iter s, ProofsConv.wf (h, cs) -> s < length cs ->
+  let w' := ModelConv.cstep vzero vnull (h, cs) (OConv kind same iter s) in
+  length (snd w') = S (length cs) /\ ProofsConv.wf w' /\
+  ProofsConv.wobs vzero w' (length cs) = ProofsConv.wobs vzero (h, cs) s /\
+  ProofsConv.wobs vzero w' s = ProofsConv.wobs vzero (h, cs) s /\
+  ProofsConv.disj (ModelConv.locs (nth (length cs) (snd w') dummy)) (ModelConv.locs (nth s (snd w') dummy)).
+Proof. exact (ProofsConv.conversion_in_world vzero vnull null_reads_zero). Qed.
+(* ALL later histories — further conversions of anything, new containers, any number of mutations (arbitrary
+   receiver-only transformers: element writes, Reset, in-place arithmetic, Set, iterator loops) addressed at OTHER
+   containers: a container reads the same.  With the previous theorem: mutating the result (source) of a conversion,
+   for ever, is invisible through the source (result). *)
+Theorem mutation_after_conversion_invisible_through_the_other : forall ops w c,
+  ProofsConv.wf w -> Forall ProofsConv.valid ops -> c < length (snd w) ->
+  (forall o, In o ops -> ModelConv.target o <> Some c) ->
+  ProofsConv.wf (ModelConv.crun vzero vnull w ops) /\ c < length (snd (ModelConv.crun vzero vnull w ops)) /\
+  ProofsConv.wobs vzero (ModelConv.crun vzero vnull w ops) c = ProofsConv.wobs vzero w c.
+Proof. exact (ProofsConv.history_independent vzero vnull null_reads_zero). Qed.
+End Round5A.
+(* the seeded regression class (a to-sparse "fast path" storing the source's cells) breaks it *)
+Theorem conversion_sharing_cells_refuted :
+  let w := ProofsConv.share_world in
+  let w' := ModelConv.cstep 0 (Nat.eqb 0) w (OHavoc 1 [0; 1] [9; 9]) in
+  ProofsConv.wobs 0 w 0 = [7; 5] /\ ProofsConv.wobs 0 w' 0 = [9; 9].
+Proof. exact ProofsConv.shared_cells_break_independence_refuted. Qed.
+Example round5A_hypotheses_satisfiable :
+  (forall x, Nat.eqb 0 x = true -> x = 0) /\
+  ProofsConv.wf (ModelConv.cstep 0 (Nat.eqb 0) (mkH 0 (fun _ => 0), []) (ONew 2 3 [0; 2] [4; 0; 5])).
+Proof.
+  split; [intros x H; apply Nat.eqb_eq in H; auto|].
+  apply (ProofsConv.cstep_frame 0 (Nat.eqb 0)).
+  - intros x H; apply Nat.eqb_eq in H; auto.
+  - split; simpl; intros; lia.
+  - simpl. repeat constructor; simpl; intuition discriminate.
+Qed.
+
+Section Round5B.
+Context {V : Type} (vzero : V).
+(* Next() of an iterator object (plain or joint) is Next() on its resolved state and writes only its OWN cursor objects *)
+Theorem iterator_next_writes_own_cursors_only : forall (h h' : ModelIt.iheap) it it',
+  ProofsIt.okit h it -> ModelIt.inext vzero h it = (h', it') ->
+  ModelIt.view_of h' it' = ModelIt.vnext vzero (ModelIt.view_of h it) /\ ModelIt.ids it' = ModelIt.ids it /\
+  length h' = length h /\ forall i, ~ In i (ModelIt.ids it) -> nth i h' [] = nth i h [].
+Proof. exact (ProofsIt.inext_spec vzero). Qed.
+(* Clone() (plain: one, joint: BOTH operand cursors) makes new cursor objects and starts in the source's state *)
+Theorem iterator_clone_equals_source : forall h its k, ProofsIt.wf (h, its) -> k < length its ->
+  let w' := ModelIt.istep vzero (h, its) (IClone k) in
+  length (snd w') = S (length its) /\ ProofsIt.wview w' (length its) = ProofsIt.wview (h, its) k /\
+  ProofsIt.wview w' k = ProofsIt.wview (h, its) k.
+Proof. exact (ProofsIt.clone_equal vzero). Qed.
+(* ALL histories (new iterators, Next on anything, clones, clones of clones): afterwards an iterator is in its old
+   state advanced by exactly the Next() calls addressed at IT — advancing a copy never advances, skips or re-reads
+   either operand cursor of another *)
+Theorem iterator_clones_independent : forall ops w c, ProofsIt.wf w -> c < length (snd w) ->
+  ProofsIt.wf (ModelIt.irun vzero w ops) /\ c < length (snd (ModelIt.irun vzero w ops)) /\
+  ProofsIt.wview (ModelIt.irun vzero w ops) c = ProofsIt.iterate (ModelIt.vnext vzero) (ModelIt.nexts_of c ops) (ProofsIt.wview w c).
+Proof. exact (ProofsIt.iterator_history_independent vzero). Qed.
+End Round5B.
+(* the seeded regression class (a joint clone keeping the source's it2 pointer) breaks it *)
+Theorem joint_clone_sharing_second_cursor_refuted :
+  let w1 := ModelIt.istep 0%Z ProofsIt.share_it_world (INext 1) in
+  let w2 := ModelIt.istep 0%Z (ModelIt.istep 0%Z ProofsIt.share_it_world (INext 0)) (INext 1) in
+  ModelIt.iobs 0%Z (Z.eqb 0) w1 1 = (true, 1%Z, Some 2%Z, 20%Z) /\ ModelIt.iobs 0%Z (Z.eqb 0) w2 1 = (true, 1%Z, Some 2%Z, 0%Z).
+Proof. exact ProofsIt.shared_it2_breaks_independence_refuted. Qed.
+Example round5B_hypotheses_satisfiable : ProofsIt.wf (([] : list (list (Z * Z))), ([] : list (@ModelIt.iter Z))).
+Proof. split; simpl; intros; lia. Qed.
